@@ -347,7 +347,7 @@ func (a *Nary) Eval(c Context) Value {
 	exprs := a.Exprs
 	switch a.Tok {
 	case tok.Add: // includes Sub
-		return nary(exprs, c, OpAdd, nil)
+		return addsub(exprs, c)
 	case tok.Mul: // includes Div
 		return muldiv(exprs, c)
 	case tok.BitOr:
@@ -374,6 +374,20 @@ func nary(exprs []Expr, c Context,
 			return zero
 		}
 		result = op(result, e.Eval(c))
+	}
+	return result
+}
+
+// addsub does x - y with OpSub (like codegen)
+// because it is not always the same as x + -y
+func addsub(exprs []Expr, c Context) Value {
+	result := exprs[0].Eval(c)
+	for _, e := range exprs[1:] {
+		if u, ok := e.(*Unary); ok && u.Tok == tok.Sub {
+			result = OpSub(result, u.E.Eval(c))
+		} else {
+			result = OpAdd(result, e.Eval(c))
+		}
 	}
 	return result
 }
